@@ -1,6 +1,6 @@
 PROP = {
     "shared_groups": "also runs the neighbouring groups whose code can break this property: e2e-pause (described under C18); e2e-stop (described under C10); archive (described under C15: its section 13 runs the real archive writer and the real recvFileDataV2 on destinations that fail - a swallowed write error makes the save stage spin and both sides wait for ever)",
-    "groups": ["proc", "errtell", "e2e-hang", "e2e-pause", "e2e-stop", "archive"],
+    "groups": ["proc", "errtell", "e2e-hang", "e2e-pause", "e2e-stop", "archive", "cfgtimeout"],
     "rule": "proc: for each of the three generated nets (send, recv, hash) the numbers of goroutines, channels, "
             "defer-closed channels, range loops and the sorted channel capacities counted by an independent name-based "
             "go/ast walk vs the numbers the extracted model computes from the generated skeleton; proc_faults: 'every return "
@@ -20,6 +20,11 @@ PROP = {
             "regenerated skeleton; direct oracles: a side whose error is not the peer's own EXIT/fail/FAIL line writes exactly "
             "one fail/FAIL line after cleanInput on the writer in force, the server exactly in the tunnel window the same line once "
             "more on the accepted tunnel connection (never outside it), a side whose error is such a line writes nothing. "
+            "cfgtimeout: the real handshake in-process (client sendAction, server recvAction + sendConfig, client recvConfig over two "
+            "pipes) for Timeout in {-5,-1,0,1,7,20,100} (thorough: also int32 extremes, 2, 19, 21, 3600) x the other members of the CFG "
+            "record (each on its own, random mixtures, a client that announces protocol 2): the timeout both ends work with afterwards, "
+            "whether getNewTimeout() arms a timer on either end, whether the record carried the member, vs the extracted model on the "
+            "shape regenerated from the source; direct oracle timeout-not-honoured:<value>:<side>. "
             "e2e-hang: the real client (filter) against the real trz/tsz children with a fault injected at a sampled write boundary after the handshake has begun: one direction falls silent, one write is discarded, the server's input is closed, the source shrinks or disappears mid-transfer, the destination directory disappears, the destination file accepts no byte (a link to /dev/full opened with overwrite: ENOSPC on every write); oracles: both sides return within 3 x timeout + 6 s, and 1.5 s after all runs no goroutine with a trzszTransfer / sendDataWriter / recvDataReader frame is left in the client process.",
     "trusted": [
         "skeleton translator go/cmd/gen/skel_*.go: syntactic; classification table of wire/file calls (skTable); "
@@ -37,11 +42,16 @@ PROP = {
         "break/continue/inlined return inside such a loop = skip the rest of the iteration, all goroutines of a net "
         "exist from the start (the net starts where the main function creates its context; what it does before is kept "
         "apart as <net>_main_prelude), deferred calls count as registered from the start",
+        "cfgtimeout: go/cmd/gen/cfgtimeout.go reads the shape of sendConfig / recvConfig / newTransfer / getNewTimeout / the relay's "
+        "recvConfig and the json tag as values; encoding/json is not modelled (a present integer member arrives as written, an absent one "
+        "leaves the field); /repo/trzsz/export_verif_cfgtimeout.go (build tag verif)",
         "errtell: the error classes of the interpreter (errType \"\", fail, FAIL, EXIT, other) and the hand-written mapping "
         "of the harness's errType strings onto them (ocaml/m_errtell.ml, go/cmd/gen/errtell.go etTypeOf); "
         "/repo/trzsz/export_verif_errtell.go (build tag verif)",
     ],
-    "assumptions": ["Timeout > 0 (a timeout <= 0 means the user asked to wait indefinitely)",
+    "assumptions": ["Timeout > 0 (a timeout <= 0 means the user asked to wait indefinitely; that such a wish reaches both ends unchanged "
+                    "and arms no timer is C11_timeout_roundtrip; JSON itself is not modelled: a member that is present arrives as written, "
+                    "an absent one leaves the default)",
                     "the Go runtime schedules runnable goroutines and fires timers (wall-clock bounds are measured, not proved): "
                     "between a fault and ctx.cancel the failing goroutine has to be scheduled (at most |h| + 2 times)",
                     "fault => cancel is proved per goroutine; for two error paths (file reader of the sender, decoder of the receiver: "
@@ -71,6 +81,9 @@ TEXT = {
             "the ACT, the same line once more on that connection (a client on either path gets exactly one), unless the error is the "
             "peer's own EXIT/fail/FAIL line, then none; the server resets the terminal exactly once, "
             "last; the call sites in filter.go, trz.go, tsz.go are pinned. "
+            "(4) A timeout of zero or less means wait indefinitely, on both ends: for every integer t the server's -t arrives as t in "
+            "both transferConfigs after the handshake and a read timer is armed iff t > 0 (shape of sendConfig / recvConfig / newTransfer / "
+            "getNewTimeout regenerated as values; tied by the real in-process handshake over a ladder of timeouts around zero). "
             "Tied to the code by regenerating the skeletons, by translator sanity counts, by calling the real clientError / "
             "serverError on every error class, and by fault injection on the real client and server with hang and "
             "goroutine-leak oracles.",
